@@ -270,10 +270,7 @@ def run_relation_unit(unit, script):
     lo, hi = unit.get('charset', (0, 0x10ffff))
 
     def body():
-        x, chars = E.symstr(L, 's', lo, hi)
-        pre = unit.get('prefix')
-        if pre:
-            x = E.SStr([ord(c) for c in pre] + chars[len(pre):])
+        x, chars = common.sym_input(E, unit)
         outs = run_symbolic(calls, x, VE)
         return x, outs
     interesting = 0
